@@ -103,6 +103,10 @@ extern "C" void harness() {
 #else
     unsigned bad = ndu(); ASSUME(bad >= n);
 #endif
+#if defined(ORPHAN) && (KIND == 0 || KIND == 1) && LT != 0
+    // reachable through the documented setEdgeLabel(..., force=true): label entries for pairs that are not edges
+    for (unsigned i = 0; i < NM; ++i) for (unsigned j = (UND ? i : 0); j < NM; ++j) if (i < n && j < n && !C[i][j] && ndb()) { vh_label_set(g, i, j, pickl()); REACH("state with an orphan label"); }
+#endif
     unsigned other = ndu();
 #if defined(OTHER_IN_RANGE)
     ASSUME(other < n);
